@@ -19,6 +19,7 @@ UNITS = {
 UNITS2 = {
     'MessageqSeq': (os.path.join(vlib.REPO, 'librfn/messageq.c'),
                     ['messageq_init', 'messageq_claim', 'messageq_send', 'messageq_receive', 'messageq_release', 'messageq_empty'], 2),
+    'RingSeq': (os.path.join(vlib.REPO, 'librfn/ringbuf.c'), ['ringbuf_init', 'ringbuf_get', 'ringbuf_empty', 'ringbuf_put'], 2),
 }
 
 def regen(units):
